@@ -96,7 +96,7 @@ theorem groupCurve_exists (flip : Bool) (xm ym : Metric) (rows : List Row) (hx :
     · exact ⟨_, h1, h.2⟩
     · exact ⟨_, h0, h.1⟩
   refine ⟨upperHull (sortLex (rawPoints flip xm ym rows)), ?_, good, ?_, ?_⟩
-  · unfold tradeoffCurve tradeoffPoints
+  · unfold tradeoffCurve; rw [tradeoffPoints_eq]
     rw [if_neg (by push Not; exact ⟨hp, hn⟩)]
     rfl
   · obtain ⟨p, hp1, hp2⟩ := sorted_head_le hs hq0
@@ -106,7 +106,7 @@ theorem groupCurve_exists (flip : Bool) (xm ym : Metric) (rows : List Row) (hx :
 
 theorem tradeoffCurve_some_inv {flip : Bool} {xm ym : Metric} {rows : List Row} {H : List Pt}
     (h : tradeoffCurve flip xm ym rows = some H) : nPos rows ≠ 0 ∧ nNeg rows ≠ 0 := by
-  unfold tradeoffCurve tradeoffPoints at h
+  unfold tradeoffCurve at h; rw [tradeoffPoints_eq] at h
   by_cases hc : nPos rows = 0 ∨ nNeg rows = 0
   · rw [if_pos hc] at h; simp at h
   · push Not at hc; exact hc
